@@ -725,3 +725,7 @@ SPECS["C13"]["level_text"] += "; StreamReversed.__init__ gives a reversed view a
 # C10: the AKAI path-token normaliser
 SPECS["C10"]["contracts"] += ["smpl_extract.akai.image:AkaiImageParser._sanitize_string"]
 SPECS["C10"]["level_text"] += "; AkaiImageParser._sanitize_string drops exactly one trailing colon of the upper-cased, trimmed token and raises nothing on the empty token"
+
+# round 5: the MDX payload window is a view like the others (C08); the batch writer contract also serves C01 (names with inner periods)
+SPECS["C08"]["contracts"] += ["smpl_extract.alcohol.mdx:MdxStream"]
+SPECS["C01"]["contracts"] += [f"smpl_extract.structural:ExportManager.export_samples[n={n}]" for n in (1, 2)]
